@@ -275,7 +275,8 @@ def gen_coll(rng, what: str) -> dict:
     free = [n for n in pool if n not in cur]
     edits = ["rebuild", "add", "addel"]
     if cur:
-        edits += ["reset", "change", "change", "del", "rename", "clear", "delreadd", "back", "replacesame"]
+        edits += ["reset", "change", "change", "del", "rename", "renamekeep", "renamekeep", "clear", "delreadd", "back",
+                  "replacesame"]
         if what == "distcoll" and any("fam" in v for v in cur.values()):
             edits += ["params", "params"]
     if len(cur) >= 2:
@@ -297,6 +298,9 @@ def gen_coll(rng, what: str) -> dict:
     elif edit == "rename":
         n = rng.choice(list(cur))
         eb = [["del", n], ["set", free[0], copy.deepcopy(cur[n])]]
+    elif edit == "renamekeep":            # same values at the same positions, one name changed
+        n = rng.choice(list(cur))
+        eb = [["replace", [[free[0] if m == n else m, copy.deepcopy(v)] for m, v in cur.items()]]]
     elif edit == "clear":
         eb = [["clear"]]
     elif edit == "delreadd":
@@ -644,14 +648,42 @@ def _leaves(ck):
     return out
 
 
-def _common(o, key_eq, what):
+STATS: dict = {}
+
+
+def edge_raw(params: dict, name: str) -> dict:
+    return {p: v for p, v in params.items() if p.rpartition("_")[0] == name}
+
+
+def raw_identical(c) -> bool:
+    """both objects of the pair were given literally the same content (names, order, numbers)"""
+    k = c["kind"]
+    if k == "graph":
+        return (c["gb"] is None or c["gb"]["entries"] == c["graph"]["entries"]) and c["pa"] == c["pb"]
+    if k in ("modcoll", "distcoll"):
+        a, b = sim_ops(c["pre"] + c["ea"]), sim_ops(c["pre"] + c["eb"])
+        return list(a.items()) == list(b.items())
+    return True
+
+
+def _common(c, o, key_eq, label):
+    """Modality / Distribution have a content-based ==, so equal keys (= objects that compare equal) must hash equal.
+    Graphs and collections have no ==: the statement demands `content changed => hash changed`; `equal keys => equal
+    hashes` is demanded only between objects given literally the same content (reconstruction, set-and-back, ...),
+    not e.g. for a micro_mod edit on an arc with spread 0 (recorded as a diagnostic only)."""
+    kk = f"{label}: keys {'equal' if key_eq else 'differ'}"
+    STATS[kk] = STATS.get(kk, 0) + 1
     if not o.get("stable", True):
-        return {"observable": f"hash({what}) not stable between two calls"}
-    if o["heq"] != key_eq:
-        return {"observable": f"hash({what})", "actual": "hashes equal" if o["heq"] else "hashes differ",
-                "expected": "model keys equal" if key_eq else "model keys differ",
-                "statement": "hash(a) == hash(b) exactly when the hashed content (model key) is equal"}
-    return None
+        return {"observable": f"{label} not stable between two calls"}
+    if o["heq"] == key_eq:
+        return None
+    if key_eq and not raw_identical(c):
+        STATS["diagnostic: equal keys from different raw values hash differently (not demanded)"] = \
+            STATS.get("diagnostic: equal keys from different raw values hash differently (not demanded)", 0) + 1
+        return None
+    return {"observable": label, "actual": "hashes equal" if o["heq"] else "hashes differ",
+            "expected": "model keys equal" if key_eq else "model keys differ",
+            "statement": "equal content => equal hash; changed content => changed hash"}
 
 
 def compare(c, obs, val):
@@ -670,7 +702,7 @@ def compare(c, obs, val):
             return {"observable": "Modality.__eq__", "actual": [o["eq_ab"], o["eq_ba"]], "expected": eqm}
         if o["eq_other"]:
             return {"observable": "Modality.__eq__ with a non-modality", "actual": True, "expected": False}
-        return _common(o, ka == kb, "Modality")
+        return _common(c, o, ka == kb, "hash(Modality)")
     if k == "dist":
         ka, kb, eqm = val
         for cont, key, w in ((o["A"], ka, "a"), (o["B"], kb, "b")):
@@ -684,7 +716,7 @@ def compare(c, obs, val):
             return {"observable": "Distribution.__eq__", "actual": [o["eq_ab"], o["eq_ba"]], "expected": eqm}
         if o["eq_other"]:
             return {"observable": "Distribution.__eq__ with a non-distribution", "actual": True, "expected": False}
-        return _common(o, ka == kb, "Distribution")
+        return _common(c, o, ka == kb, "hash(Distribution)")
     if k == "graph":
         ka, kb, na, nb = val
         for edges, key, w in ((o["edges_a"], ka, "a"), (o["edges_b"], kb, "b")):
@@ -698,6 +730,8 @@ def compare(c, obs, val):
         da, db = dict((e[0], e[1]) for e in ka), dict((e[0], e[1]) for e in kb)
         for name, heq in o["edge_heq"].items():
             if heq != (da[name] == db[name]):
+                if not heq and edge_raw(c["pa"], name) != edge_raw(c["pb"], name):
+                    continue             # equal edge keys from different raw values: not demanded (see _common)
                 return {"observable": "hash(Edge)", "edge": name, "actual": "hashes equal" if heq else "hashes differ",
                         "expected": "model keys equal" if da[name] == db[name] else "model keys differ"}
         if not o["edges_distinct"]:
@@ -716,7 +750,7 @@ def compare(c, obs, val):
         if o.get("back") is False:
             return {"observable": "hash(graph) after setting the parameters back", "actual": "differs",
                     "expected": "equal to the hash of the graph with the same parameters"}
-        return _common(o, ka == kb, "graph")
+        return _common(c, o, ka == kb, "hash(graph)")
     # collections
     ka, kb = val
     for leaves, key, w in ((o["leaves_a"], ka, "a"), (o["leaves_b"], kb, "b")):
@@ -738,7 +772,7 @@ def compare(c, obs, val):
                     return {**d, "which": w, "leaf": i, "entry": name}
     if o.get("pre_eq") is False:
         return {"observable": f"{k} hash of two models after the same operations", "actual": "differ", "expected": "equal"}
-    return _common(o, ka == kb, "modalities_hash()" if k == "modcoll" else "distributions_hash()")
+    return _common(c, o, ka == kb, "modalities_hash()" if k == "modcoll" else "distributions_hash()")
 
 
 # ------------------------------------------------------------------------------------------
@@ -881,6 +915,7 @@ def run(ctx: Ctx, a_ok: bool):
                                        + str(mm.get("observable")),
                  broken="correspondence Hash.v keys / eq vs /repo (__hash__, __eq__, modalities_hash, distributions_hash)",
                  shard=45)
+    ctx.extra["pairs_by_model_verdict"] = dict(sorted(STATS.items()))
 
 
 def replay(ctx: Ctx, path: str) -> int:
